@@ -575,12 +575,17 @@ def run_scenarios(ctx, scenarios, oracle, nproc=14):
     # the composed model (setup + resolver, coq/Model/SetupFull.v): same requests, no decisions fed
     fmeta = [(s, r, rec) for (s, r, rec) in meta if full_applicable(r)]
     ctx.bump("composed-model-outside-restrictions", len(meta) - len(fmeta))
-    fouts = ctx.model([model_line_full(s["world"], r, rec) for (s, r, rec) in fmeta], pid="C01")
-    for out, (s, r, rec) in zip(fouts, fmeta):
+    # (its dotted-numeric comparator reads 1.0 2.0 3.0 9.9 only: worlds with other version names go to real_pass alone)
+    smeta = [(s, r, rec) for (s, r, rec) in fmeta if not nontrivial_versions(s["world"])]
+    ctx.bump("composed-model-outside-dotted-numeric-names", len(fmeta) - len(smeta))
+    fouts = ctx.model([model_line_full(s["world"], r, rec) for (s, r, rec) in smeta], pid="C01")
+    for out, (s, r, rec) in zip(fouts, smeta):
         compare_full(ctx, s["world"], r, rec, model_result_full(out))
         ctx.bump("composed-model-comparisons")
         if len(rec["decisions"]) > 1:
             ctx.bump("composed-model-comparisons-with-dependencies")
+    # the composed model with the comparator and the matcher of C10 (coq/Model/ResolveReal.v): same requests
+    real_pass(ctx, fmeta)
     # the text-fed model (C11's parser + expandEupsVariables + command kinds + setup, coq/Model/SetupText.v): same
     # requests and decisions, the world given by the table texts the generator wrote
     text_pass(ctx, meta)
@@ -868,3 +873,191 @@ def directed_text_scenarios():
     w3["products"]["odd"]["2.0"].append("}")
     s3 = {"world": w3, "env0": dict(s1["env0"]), "requests": copy.deepcopy(s1["requests"])}
     return [s1, s2, s3]
+
+
+# ------------------------------------------------------------------ version names of C10's grammar (coq/Model/ResolveReal.v)
+# The composed model once more, with the comparator and the matcher of C10 in the place of the dotted-numeric ones
+# (op fullv of build/c01/run = request_full_real): every request of every scenario goes through it, and the worlds of
+# gen_world_versions give it version names on which the two comparators differ (1.0 1.0.1 1.0+1 1.0-rc1 1.10 1.9 v1_2,
+# spellings of one key such as 1.0 / 1_0 / 1.00) and relational expressions over them.
+
+VN_NEIGHBOURS = ["1.0", "1.0.1", "1.0+1", "1.0-rc1", "1.0-rc2", "1.10", "1.9", "1.9.1", "2", "10", "1.1", "1.0+a1",
+                 "0.9", "1.0.0", "1.10-rc1", "1.10+1", "2.0", "1_1", "1.01"]
+
+
+def respell_version(rng, v):
+    """another spelling of the same key: the other separator, or a zero in front of a numeric component"""
+    import re
+    seps = [k for k, ch in enumerate(v) if ch in "._"]
+    if seps and rng.random() < 0.5:
+        i = rng.choice(seps)
+        return v[:i] + ("_" if v[i] == "." else ".") + v[i + 1:]
+    k = rng.choice(list(re.finditer(r"\d+", v)))
+    return v[:k.start()] + "0" + v[k.start():]
+
+
+def version_names(rng, k):
+    """k distinct version names for one product: neighbours in the order of C10 (one letter prefix per product), a
+    sample of harness/c10.py's bounded grammar, sometimes two spellings of one key"""
+    import c10
+    pre = "v" if rng.random() < 0.12 else ""
+    pool = [pre + v for v in rng.sample(VN_NEIGHBOURS, k)]
+    if rng.random() < 0.3:
+        g = [v for v in rng.sample(c10.big_grammar(), 6) if (v[:1] == "v") == bool(pre) and v not in pool]
+        if g:
+            pool[rng.randrange(k)] = g[0]
+    if k >= 2 and rng.random() < 0.25:
+        alt = respell_version(rng, pool[0])
+        if alt not in pool:
+            pool[-1] = alt
+    return pool
+
+
+def gen_world_versions(rng):
+    """a world of gen_world (same tables, same directed sub-families) whose version names are drawn from C10's grammar
+    and whose dependency lines name them: explicit versions, relational expressions (dep >= 1.0.1, dep < 1.10),
+    bracketed expressions ([>= 1.0+1], version [expr]), alternatives (>= 1.9 || == 1.0-rc1)"""
+    import re
+    w = gen_world(rng)
+    ren = {}
+    for name, vs in w["products"].items():
+        ren[name] = dict(zip(sorted(vs), version_names(rng, len(vs))))
+
+    def expr(names):
+        def term():
+            op = rng.choice([">=", ">=", ">", "<=", "<", "=="])
+            return "%s %s" % (op, rng.choice(names) if rng.random() < 0.8 else rng.choice(VN_NEIGHBOURS))
+        return " || ".join(term() for _ in range(rng.choice([1, 1, 1, 2])))
+
+    def rewrite(line):
+        m = re.match(r"(setupRequired|setupOptional)\((\w+)(.*)\)$", line)
+        if not m or m.group(2) not in ren:
+            return line
+        kind, dep, rest = m.group(1), m.group(2), m.group(3).strip()
+        names = sorted(ren[dep].values())
+        if rest in ren[dep] and rng.random() < 0.6:
+            return "%s(%s %s)" % (kind, dep, ren[dep][rest])          # the explicit version, renamed
+        if rest == "9.9" or rest.startswith("-t") or (rest in ("", "-j") and rng.random() < 0.45):
+            return line
+        r = rng.random()
+        if r < 0.25:
+            arg = "%s %s" % (dep, rng.choice(names))
+        elif r < 0.6:
+            arg = "%s %s" % (dep, expr(names))
+        elif r < 0.75:
+            arg = "%s [%s]" % (dep, expr(names))
+        elif r < 0.92:
+            arg = "%s %s [%s]" % (dep, rng.choice(names + [rng.choice(VN_NEIGHBOURS)]), expr(names))
+        else:
+            arg = "%s -j %s" % (dep, rng.choice(names))
+        return "%s(%s)" % (kind, arg)
+    prods = {}
+    for name, vs in w["products"].items():
+        prods[name] = {ren[name][v]: [rewrite(l) for l in lines] for v, lines in vs.items()}
+    w["products"] = prods
+    w["current"] = {n: ren[n][v] for n, v in w["current"].items()}
+    w["family"] = "versions"
+    return w
+
+
+def gen_scenario_versions(rng, shape="plain"):
+    """shape plain: 0-2 prior setups and a final one (C01); inverse: setup X then unsetup X (C02); options: the final
+    request carries --keep / --just / --max-depth or is an unsetup (C04)"""
+    w = gen_world_versions(rng)
+    env0 = {"PATH": "/usr/bin:/bin"}
+    if rng.random() < 0.3:
+        env0["XLIST"] = "/pre/x;/pre/y"
+    if shape == "inverse":
+        first = gen_request(rng, w, allow_fail=0.05)
+        return {"world": w, "requests": [first, {"name": first["name"], "fwd": False}], "env0": env0}
+    reqs = [gen_request(rng, w, allow_fail=0.0) for _ in range(rng.choice([0, 1, 2]))]
+    last = gen_request(rng, w, allow_fail=0.05)
+    if shape == "options":
+        r = rng.random()
+        if r < 0.45:
+            last["keep"] = True
+        elif r < 0.6:
+            last["just"] = True
+        elif r < 0.85:
+            last["max_depth"] = rng.choice([0, 1, 1, 2])
+        else:
+            last = {"name": last["name"], "fwd": False}
+        if not reqs:
+            reqs = [gen_request(rng, w, allow_fail=0.0)]
+    return {"world": w, "requests": reqs + [last], "env0": env0}
+
+
+def nontrivial_versions(world):
+    return any(v not in VERSIONS for vs in world["products"].values() for v in vs)
+
+
+def compare_full_real(ctx, world, res, rec, mres):
+    """composed model with C10's comparator vs implementation for one request (as compare_full)"""
+    case = {"world": world, "request": rec["request"], "before": rec["before"], "real_comparator": True}
+    if mres.get("kind", "").startswith("err"):
+        ctx.disagree(case, mres, {"ok": rec["ok"], "outcome": rec["outcome"]}, where="real-comparator-model-error")
+        return
+    if rec["ok"] != mres["ok"]:
+        ctx.disagree(case, mres, {"ok": rec["ok"], "outcome": rec["outcome"], "decisions": rec["decisions"]},
+                     where="real-comparator-success")
+        return
+    if mres["decisions"] != rec["decisions"]:
+        ctx.disagree(case, {"decisions": mres["decisions"]}, {"decisions": rec["decisions"]},
+                     where="real-comparator-decisions")
+        return
+    if rec["ok"] and (mres["env"] != rec["after"] or mres["aliases"] != rec["aliases"]):
+        diff = {k: (mres["env"].get(k), rec["after"].get(k)) for k in set(mres["env"]) | set(rec["after"])
+                if mres["env"].get(k) != rec["after"].get(k)}
+        ctx.disagree(case, {"env_diff(model,impl)": diff, "aliases": mres["aliases"]}, {"aliases": rec["aliases"]},
+                     where="real-comparator-environment")
+
+
+def real_pass(ctx, fmeta):
+    """every request the composed model can express, through request_full_real (C10's comparator and matcher; the
+    declarations in the listing order of Database.findProducts: version names sorted as strings, which is the order
+    of world_field).  A world with a version name C10 does not accept, or an expression that does not evaluate, is
+    counted (outside), not compared."""
+    lines = ["fullv" + model_line_full(s["world"], r, rec)[len("full"):] for (s, r, rec) in fmeta]
+    for out, (s, r, rec) in zip(ctx.model(lines, pid="C01"), fmeta):
+        f = out.split("\t")
+        if f[0] == "outside":
+            ctx.bump("real-comparator-outside-domain")
+            continue
+        compare_full_real(ctx, s["world"], r, rec, model_result_full(out))
+        ctx.bump("real-comparator-comparisons")
+        if nontrivial_versions(s["world"]):
+            ctx.bump("real-comparator-comparisons:version-names-of-C10's-grammar")
+            if len(rec["decisions"]) > 1:
+                ctx.bump("real-comparator-comparisons:version-names-of-C10's-grammar-with-dependencies")
+            ctx.bump("real-comparator-comparisons:" + ("distinct-keys (fw_real_ok)" if f[-3] == "1" else
+                                                       "names-with-equal-keys-or-unconventional"))
+            ctx.bump("real-comparator-comparisons:" + ("conventional-names-sorted-listing (fw_conv, db_sorted)"
+                                                       if f[-2:] == ["1", "1"] else "outside-fw_conv-or-db_sorted"))
+
+
+def directed_version_scenarios():
+    """worlds on which the comparator of C10 and the dotted-numeric one part ways, requests whose decisions depend on it:
+    dep 1.9 1.10-rc1 1.10 1.10+1: numeric components (1.10 above 1.9), pre- and post-release parts around 1.10;
+    tie 0.9 1.0 1_0: two spellings of one key - the later listed one (1_0: the listing is sorted as strings) is the
+    highest for >= 0.9, == 1.0 and <= 1.0 alike; an explicit 1.0 is still 1.0"""
+    plain = ["envPrepend(PATH, ${PRODUCT_DIR}/bin)"]
+    home = lambda n: ["envSet(%s_HOME, ${PRODUCT_DIR}/home)" % n.upper()]
+    dep = {v: plain + home("dep") for v in ("1.9", "1.10-rc1", "1.10", "1.10+1")}
+    tie = {v: plain + home("tie") for v in ("0.9", "1.0", "1_0")}
+    tops = {
+        "1.0.1": plain + ["setupRequired(dep < 1.10+1)", "setupRequired(tie >= 0.9)"],
+        "1.0+1": plain + ["setupRequired(dep >= 1.9.1 || == 1.9)", "setupOptional(tie == 1.0)"],
+        "1.0-rc1": plain + ["setupRequired(dep 7 [< 1.10])", "setupRequired(tie 1.0)"],
+        "1.0": plain + ["setupRequired(dep [> 1.10])", "setupRequired(tie <= 1.0)"],
+        "v2_0": plain + ["setupRequired(dep > 1.10+1)"],
+    }
+    w = {"root": "stack", "products": {"dep": dep, "tie": tie, "top": tops},
+         "current": {"dep": "1.9", "tie": "0.9", "top": "1.0"}, "generic": [], "family": "versions"}
+    out = []
+    for v in sorted(tops):
+        out.append({"world": w, "env0": {"PATH": "/usr/bin:/bin"},
+                    "requests": [{"name": "top", "version": v, "fwd": True}, {"name": "top", "fwd": False}]})
+    out.append({"world": w, "env0": {"PATH": "/usr/bin:/bin"},
+                "requests": [{"name": "tie", "version": "1.0", "fwd": True}, {"name": "top", "version": "1.0.1", "fwd": True, "keep": True},
+                             {"name": "top", "version": "1.0", "fwd": True}]})
+    return out
